@@ -98,6 +98,28 @@ func (s inputSpec) build() []byte {
 			copy(b[k+65536:k+65536+8], b[k:k+8])
 			copy(b[k+131072:k+131072+8], b[k:k+8])
 		}
+	case "blockmix":
+		// per block of P1 bytes one of: incompressible, text, zeros - so that consecutive blocks of a
+		// frame are stored differently (raw / compressed)
+		bs := s.P1
+		if bs <= 0 {
+			bs = 65536
+		}
+		for i := 0; i < len(b); i += bs {
+			end := i + bs
+			if end > len(b) {
+				end = len(b)
+			}
+			switch (int(s.Seed) + i/bs) % 3 {
+			case 0:
+				r.Read(b[i:end])
+			case 1:
+				for j := i; j < end; {
+					k := r.Intn(len(words) - 12)
+					j += copy(b[j:end], words[k:k+3+r.Intn(9)])
+				}
+			}
+		}
 	case "runs":
 		// long runs needing multi-byte match and literal length codes
 		for i := 0; i < len(b); {
